@@ -203,7 +203,11 @@ def gen_markup(r, big=False):
             elif k < 0.48:
                 out.append(f"<{r.choice(VOID)}{attrs()}{r.choice(['', '/'])}>")
                 last_text = False
-            elif k < 0.53:
+            elif k < 0.50:
+                out.append(r.choice(['<meta charset="utf8">', '<meta http-equiv="Content-type" content="text/html; charset=ISO-8859-1">',
+                                     '<meta content="x; charset=koi8-r" name="n">']))
+                last_text = False
+            elif k < 0.55:
                 nm = r.choice(["script", "style"])
                 out.append(f"<{nm}{attrs()}>{'x<y' if r.random() < 0.7 else ''}</{nm}>")
                 last_text = False
@@ -1762,6 +1766,63 @@ def stream_nonstring(ctx):
                           kf=None)
 
 
+def stream_setitem(ctx, batch):
+    """`d[key] = value` of AttributeDict / HTMLAttributeDict / XMLAttributeDict against the Lean `coerce`, over every kind of
+    key and value the model knows; and the copy of a tag whose dict was filled behind its back (dict.update), which the model
+    predicts (values an HTML/XMLAttributeDict would not have stored are processed by the copy) but the property does not cover"""
+    e = E()
+    NA = e["el"].NamespacedAttribute
+    keys = ["k", "class", NA("xlink", "href", "http://x"), NA("xml", None), NA(None, "nm", None), NA("p", "", "u")]
+    vals = [["s", "v"], ["s", ""], ["sc", "CharsetMetaAttributeValue", "utf8"], ["sc", "ContentMetaAttributeValue", "text/html; charset=x"],
+            ["sc", "SubStrVal", "q"], ["l", "AttributeValueList", ["a", "b"]], ["l", "list", []], ["l", "MyAVL", ["x"]],
+            ["i", 0], ["i", 1], ["i", 2], ["i", -17], ["i", 10 ** 25], ["b", True], ["b", False], ["n"]]
+    n = 0
+    for ci, cname in enumerate(DICT_CLASSES[:3]):
+        for k in keys:
+            for vd in vals:
+                d = e["dcls"][cname]()
+                v = make_value(vd)
+                d[k] = v
+                reg = Reg()
+                real = val_tok(reg, d[k]) if k in d else "drop"
+                vin = val_tok(Reg(), v)
+                if vd[0] == "l":   # the very same list object is stored: identities agree by construction
+                    real = val_tok(Reg(), d[k])
+                case = {"op": "setitem", "dict": cname, "key": [str(k), getattr(k, "prefix", None), getattr(k, "name", None),
+                                                                  getattr(k, "namespace", None), type(k).__name__], "value": vd}
+                ctx.case(("setitem", cname, str(k), json.dumps(vd)))
+                n += 1
+                batch.add(f"c12 setitem {ci} {key_tok(k)} {vin}", real, case, "Lean coerce and AttributeDict.__setitem__ disagree", "setitem")
+                # idempotence where the model proves it (setitem_idempotent)
+                if k in d and not (cname == "HTMLAttributeDict" and d[k] is None):
+                    d2 = e["dcls"][cname]()
+                    d2[k] = d[k]
+                    if k not in d2 or d2[k] is not d[k] and d2[k] != d[k]:
+                        ctx.violation("a stored attribute value is not stored unchanged when set again", case=case, expected=repr(d[k]),
+                                      observed=repr(d2.get(k)), stream="setitem")
+    ctx.count("setitem:cases", n)
+    ctx.exhaustive_parts.append(f"setitem: 3 dict classes x {len(keys)} kinds of key x {len(vals)} kinds of value against the Lean coerce")
+    # unsettled dicts: model only
+    for cname, xml in (("HTMLAttributeDict", None), ("XMLAttributeDict", True)):
+        for vd in vals:
+            for k in keys[:4]:
+                t = e["Tag"](name="a", is_xml=xml, attrs={"id": "1"})
+                dict.__setitem__(t.attrs, k, make_value(vd))
+                try:
+                    reg = Reg()
+                    wd = dump(reg, t)
+                    nxt = reg.next
+                    c = copy.copy(t)
+                    cd = dump(reg, c)
+                    expected = f"{reg.next} {cd}"
+                except Unrepresentable:
+                    continue
+                ctx.case(None)
+                ctx.count("setitem:unsettled-copies")
+                batch.add(f"c12 copy {inh_of(t)} {nxt} r {wd}", expected, {"op": "unsettled", "dict": cname, "key": str(k), "value": vd},
+                          "Lean copyImpl and the copy of a tag with an unsettled attribute dict disagree", "setitem")
+
+
 def stream_settings(ctx):
     """one bare tag per parameter of the live Tag.__init__, given a distinctive value: every instance attribute of the copy
     equals the original's (the search behind the generated copy_self table)"""
@@ -2053,6 +2114,7 @@ def run(ctx: Ctx):
     batch = Batch(ctx)
     stream_corpus(ctx, batch)
     stream_nonstring(ctx)
+    stream_setitem(ctx, batch)
     stream_settings(ctx)
     stream_small(ctx, batch, ctx.n(5, 6))
     stream_random(ctx, batch, ctx.n(1200, 7000))
